@@ -135,10 +135,18 @@ def run(ctx):
             ok = lp is not None
             why = "the element loop is not `while let Some(x) = seq.next_element()? { .. }` (another loop guard or exit can stop it early)"
             if ok:
-                inner = [x for x in H.walk(lp["body"]) if x.get("k") in ("break", "ret")]
+                inner = H.loop_exits([lp["body"]])
                 n_loops = len([x for x in H.walk(vs["body"]) if x.get("k") == "loop"])
                 ok = not inner and n_loops == 1
                 why = "the element loop can be left before the array is exhausted (`%s` inside the loop)" % (inner[0]["k"] if inner else "nested loop")
             ctx.oblige("C01|drains|" + ty, ok, "%s: %s; the rest of the array would be read as the next request parameter" % (ty, why), cfg=cfg, where=vs["sp"])
+        # the documented lossy members are lossy *only* as documented (a name that fits is kept whole, an icon of at most
+        # 128 bytes is kept verbatim): the C13 rules for the lossy decoders are a necessary condition of C01 as well
+        from . import c13
+        from .engine import Probe
+        pr = Probe(facts={cfg: F})
+        c13.run(pr)
+        ctx.oblige("C01|lossy-semantics", not pr.failed,
+                   "a documented lossy decoder alters or drops values it should deliver whole: %s" % "; ".join("%s: %s" % (k, m[:160]) for k, m in pr.failed[:2]), cfg=cfg)
         n = c11.check_dispatch(ctx, F, cfg, cmds, P="C01")
         ctx.floor("command switch result sites", n, 3, cfg=cfg)
